@@ -124,6 +124,18 @@ add("C10", "lifecycle-sim", "exploration",
     "Trusted: device rows read from the loaded stock file; naming convention for index parameters that do not declare their target; "
     "event/output devices are not rebuilt.", "DESIGN.md section 4, C10")
 
+add("C11", "lifecycle-sim", "exploration",
+    "deterministic simulation: seeded alter / Group.alter / alter(vin) / set / reset / power flow / dynamic init / run / export / reload histories against a reference (vin, k, v) parameter model with textbook coefficients",
+    "Stock cases are rebuilt with seeded device bases different from the system base (physics kept), then a seeded history of public-API "
+    "operations runs across the three lifecycle phases. After every operation each flagged power/voltage/current/impedance/admittance "
+    "parameter must satisfy v == vin*k with k recomputed from Sn, Vn, bus Vn and system MVA; an altered PQ load must be what the converged "
+    "power flow injects; an altered time constant must be in dae.Tf and TDS.Teye and the following steps must satisfy the rule mirror with the "
+    "independently rebuilt mass matrix; every json/xlsx export written after an alteration - whatever was exported or cached before - and the "
+    "reloaded export must carry the altered input-base values; reset() restores v = vin*k.",
+    "Trusted: the quantity kind of each parameter is read from the model declaration; parameters touched by Model.set are excluded until "
+    "reset (documented semantics of set); limit parameters adjusted at initialisation are only judged when altered by the history.",
+    "DESIGN.md section 4, C11")
+
 ENGINES = [
     {"name": "tds-sim", "path": "dst/tdssim.py", "kind_free_text": "real TDS loop under StepTap/SolverTap/TimerTap/StoreTap/ConnTap "
      "seams with seeded plans (events, segments, restarts, solver/disk/clock faults, crash points)", "serves_properties": []},
